@@ -331,3 +331,21 @@ Definition oracle_period_accepts (c : period_sp * str * option (list (option Z))
      | Some l => let '(y, m, d, o) := val_period sp in loZ_eqb l [y; m; d; o]
      | None => false
      end.
+
+(* ---- replace: (value, positional keyword arguments, offset argument (None = the sentinel True), observed) ---- *)
+Definition off_of (a : option (option Z)) : off_arg := match a with None => OffKeep | Some o => OffSet o end.
+Definition agree_date_replace (c : list (option Z) * list (option Z) * option (option Z) * list (option Z)) : bool :=
+  let '(v, args, o, obs) := c in
+  match of_date_tuple v, args with
+  | Some x, [y; m; d] => loZ_eqb (date_tuple (date_replace x y m d (off_of o))) obs
+  | _, _ => false end.
+Definition agree_time_replace (c : list (option Z) * list (option Z) * option (option Z) * list (option Z)) : bool :=
+  let '(v, args, o, obs) := c in
+  match of_time_tuple v, args with
+  | Some x, [h; mi; s; f] => loZ_eqb (time_tuple (time_replace x h mi s f (off_of o))) obs
+  | _, _ => false end.
+Definition agree_datetime_replace (c : list (option Z) * list (option Z) * option (option Z) * list (option Z)) : bool :=
+  let '(v, args, o, obs) := c in
+  match of_datetime_tuple v, args with
+  | Some x, [y; m; d; h; mi; s; f] => loZ_eqb (datetime_tuple (datetime_replace x y m d h mi s f (off_of o))) obs
+  | _, _ => false end.
